@@ -75,12 +75,17 @@ def cls_case(cls: str, up: int, down: int, ops: List[dict], layout: Optional[Tup
         x["ip"] = "192.168.1.3"
         nodes, links = [x, a], [[0, 1, 1, 1]]
         pings = {"to": [1, "192.168.1.3", [[1, 0], [0, 0]]], "from": [0, "192.168.1.2", [[0, 0], [1, 0]]]}
+        if layout == (0, 0):   # nothing plugged into the host's only interface: it can never come up
+            links, pings = [], {}
     elif cls == "wireless-router":
         w = {"cls": "wireless-router", "name": "w", "up": 1, "down": 1, "wr_ips": ("10.0.4.1", "10.0.3.2")}
         x["wr_ips"] = ("192.168.1.1", "10.0.3.1")  # (wired port 2, access point port 1)
         nodes, links = [x, a, w], [[0, 2, 1, 1]]
         pings = {"to": [1, "192.168.1.1", [[1, 0], [0, 1]]], "air": [2, "10.0.3.1", [[2, 0], [0, 0]]],
                  "from": [0, "10.0.3.2", [[0, 0], [2, 0]]]}
+        if layout == (0, 0):   # the wired port stays unplugged: only the access point can come up
+            links = []
+            del pings["to"]
     else:
         pa, pb = layout or (1, 2)
         b = {"cls": "computer", "name": "b", "up": 1, "down": 1, "ip": "10.0.0.2", "gw": "10.0.0.1"}
@@ -102,12 +107,21 @@ def layout_cycle_cases(clss=("switch", "router", "firewall"), durs=((0, 0), (2, 
     an unlinked port). Afterwards exactly the interfaces that can come up must be up (oracle `interface-down-after-return-to-on`
     and the model's state) and pings must cross the node in both directions."""
     out = []
-    for cls in clss:
-        for lay in layouts(cls):
-            spare = [q for q in range(1, N_PORTS[cls] + 1) if q not in lay]
+    for cls in tuple(clss) + tuple(HOST_CLASSES) + ("wireless-router",):
+        if cls in N_PORTS:
+            lays = layouts(cls)
+        else:
+            lays = [(1, 2), (0, 0)]      # plugged in / nothing plugged in
+        for lay in lays:
+            if cls in N_PORTS:
+                pres = (None, lay[0], [q for q in range(1, N_PORTS[cls] + 1) if q not in lay][0])
+            elif cls == "wireless-router":
+                pres = (None, 2)         # the wired port (requests to the access point raise: F-2, C05/C16)
+            else:
+                pres = (None, 1)
             for (up, down) in durs:
                 for mode in ("cycle", "reset"):
-                    for pre in (None, lay[0], spare[0]):
+                    for pre in pres:
                         ops: List[dict] = []
                         if pre is not None:
                             ops.append({"op": "req", "node": 0, "key": "network_interface", "nic": pre, "verb": "disable"})
